@@ -64,6 +64,13 @@ def main():
     rc, o = sh("git -C /repo apply %s" % patch)
     assert rc == 0, o
     results = {}
+    # the evidence files committed in /verif describe runs on /repo itself: what the runs below write is put back afterwards
+    import tempfile
+    evidence_backup = tempfile.mkdtemp(prefix="evidence-backup-")
+    for p in [prop] + extra:
+        f_ = os.path.join(V, "evidence", p + ".json")
+        if os.path.exists(f_):
+            shutil.copy(f_, evidence_backup)
     try:
         for p in [prop] + extra:
             rc, o = sh("python3 check.py %s --tier quick" % p, cwd=V, timeout=3000)
@@ -74,6 +81,9 @@ def main():
             meta["ran"].append("git -C /repo apply patch.diff; python3 check.py %s --tier quick -> exit %d, %d VIOLATION line(s)" % (p, rc, len(viol)))
     finally:
         sh("git -C /repo checkout -- .")
+        for f_ in os.listdir(evidence_backup):
+            shutil.copy(os.path.join(evidence_backup, f_), os.path.join(V, "evidence", f_))
+        shutil.rmtree(evidence_backup, ignore_errors=True)
         fcntl.flock(lockf, fcntl.LOCK_UN)
     meta["checks"] = results
     meta["caught_by"] = [p for p, r in results.items() if r["exit"] == 1]
